@@ -434,6 +434,21 @@ def p1_exact_conversions(ctx: Ctx):
     rets = [norm(s.value) for s in walk_no_nested(fn) if isinstance(s, ast.Return)]
     good = rets == ['Fraction(0)', 'Fraction(self.m << self._exp)', 'Fraction(self.m, 1 << -self._exp)']
     ctx.check(good, REALS, fn, q, 'as_rational = m * 2**exp with signed significand m', f'got {rets}')
+    # truth value: RealFloat is a numbers.Rational, whose __bool__ is `self != 0`; Float is not one and has to say it itself
+    # (without a __bool__ every object is true, a zero Float included)
+    fcls = repo.cls(FLOATS, 'Float')
+    bases = {dotted(b) for b in fcls.bases}
+    inherits = bool(bases & {'numbers.Real', 'numbers.Rational', 'numbers.Complex', 'numbers.Number', 'RealFloat'}) and 'numbers.Number' not in bases
+    own = [f for f in fcls.body if isinstance(f, ast.FunctionDef) and f.name == '__bool__']
+    good = inherits
+    if own:
+        rets = [norm(s.value) for s in walk_no_nested(own[0]) if isinstance(s, ast.Return)]
+        good = rets in (['not self.is_zero()'], ['not self._real.is_zero() or self.is_nar()'], ['self != 0'], ['not self == 0'])
+    ctx.check(good, FLOATS, own[0] if own else fcls, 'Float.__bool__', 'bool(x) is false exactly for a zero (as for int, float, Fraction and RealFloat)',
+              'Float has no truth value of its own: bool(Float(c=0)) is True')
+    rcls = repo.cls(REALS, 'RealFloat')
+    ctx.check(bool({dotted(b) for b in rcls.bases} & {'numbers.Rational', 'numbers.Real'}) or any(isinstance(f, ast.FunctionDef) and f.name == '__bool__' for f in rcls.body),
+              REALS, rcls, 'RealFloat', 'RealFloat takes its truth value from numbers.Rational (self != 0) or defines one', 'no truth value')
 
 
 # ----------------------------------------------------------------------
@@ -503,6 +518,10 @@ RULES = [
 from ..selftest import Mutant  # noqa: E402
 
 MUTANTS = [
+    Mutant('float-always-true', FLOATS, "    def __bool__(self):\n        \"\"\"Like a native number: false exactly for a zero (NaN is true).\"\"\"\n        return not self.is_zero()\n\n", "", 'C05.P1',
+           'finding F55 before its repair: bool(Float(c=0)) is True'),
+    Mutant('float-false-for-nan-too', FLOATS, "        return not self.is_zero()\n\n    def __float__", "        return not self._real.is_zero()\n\n    def __float__", 'C05.P1',
+           'a NaN or an infinity holds a zero significand: they would be false'),
     Mutant('real-times-inf-sign-twice', REALS, "                    s = self._s != (math.copysign(1.0, other) < 0)\n                    return -math.inf if s else math.inf",
            "                    s = self._s != (math.copysign(1.0, other) < 0)\n                    return other * (-1.0 if s else 1.0)", 'C05.T3', 'finding F31 before its repair: 2 * -inf = +inf'),
     Mutant('real-zero-times-inf', REALS, "                    if math.isnan(other) or self._c == 0:\n                        return math.nan", "                    if math.isnan(other):\n                        return math.nan", 'C05.T3'),
